@@ -15,13 +15,13 @@ PROP_MODULES = ['TxV.Props.C04']
 AUDIT = 'Audit/C04.lean'
 ANCHORS = ['txtorcon/torcontrolprotocol.py', 'txtorcon/util.py']
 RULE = ('advertised method lists: every ordered subset of {SAFECOOKIE, COOKIE, HASHEDPASSWORD, NULL} plus an unknown method and the missing '
-        'AUTH line (65+ lists) x cookie conditions {no COOKIEFILE, unreadable (a directory), 0/31/33/32 bytes; paths with space, quote, '
+        'AUTH line (65+ lists) x cookie conditions {no COOKIEFILE, unreadable (a directory), 0/31/33/32 bytes, 32 bytes ending in LF / CRLF or wrapped in blanks, 32 bytes followed or preceded by LF / CRLF / a blank (33-34 bytes); paths with space, quote, '
         'backslash} x password providers {none, bytes, str, Deferred, coroutine, empty, raising} x server scripts (every step answered ok / '
         '5xx / disconnect; AUTHCHALLENGE answered with the right hash, a wrong hash, a hash over a different cookie, a truncated / empty / extended / last-bit-flipped hash, or without the keywords) '
         'against the real protocol with real cookie files and real HMAC-SHA256; quick samples the product, thorough enumerates it. '
         'non-trivial = the exchange goes beyond PROTOCOLINFO; distinct = distinct cells')
 TRUSTED = ["HMAC-SHA256 is an uninterpreted function in the theorems; the driver instantiates it with the two digests the harness computed with hashlib",
-           "os.urandom is pinned per case; regex COOKIEFILE extraction and unescape_quoted_string are exercised through real paths but not modelled"]
+           "os.urandom is pinned per case, to a value that differs from case to case (all cases of a run share one process, as the connections of an application do); regex COOKIEFILE extraction and unescape_quoted_string are exercised through real paths but not modelled"]
 ASSUMPTIONS = ["the server's PROTOCOLINFO reply is well-formed (one AUTH line)"]
 
 S2C = b"Tor safe cookie authentication server-to-controller hash"
@@ -29,9 +29,22 @@ C2S = b"Tor safe cookie authentication controller-to-server hash"
 CNONCE = bytes(range(100, 132))
 SNONCE = bytes(range(200, 232))
 METHODS = {'S': 'SAFECOOKIE', 'C': 'COOKIE', 'H': 'HASHEDPASSWORD', 'N': 'NULL', 'o': 'FUTUREMETHOD'}
-COOKIES = ['nofile', 'ioerror', 'len0', 'len31', 'len33', 'len32', 'len32-weirdpath']
+COOKIES = ['nofile', 'ioerror', 'len0', 'len31', 'len33', 'len32', 'len32-weirdpath',
+           # cookies whose last (or first) bytes are a line ending or blanks: 32 bytes are a cookie whatever they are, 33 or 34 never
+           'len32-lf', 'len32-crlf', 'len32-sp', 'len33-lf', 'len34-crlf', 'len33-sp', 'len33-lead-sp']
 PWS = ['absent', 'bytes', 'str', 'deferred', 'coroutine', 'empty-none', 'empty-str', 'raises']
 COOKIE32 = bytes((i * 7 + 3) % 256 for i in range(32))
+
+
+COOKIE_DATA = {'len0': b'', 'len31': (COOKIE32 + b'\x99')[:31], 'len33': COOKIE32 + b'\x99', 'len32': COOKIE32, 'len32-weirdpath': COOKIE32,
+               'len32-lf': COOKIE32[:31] + b'\n', 'len32-crlf': COOKIE32[:30] + b'\r\n', 'len32-sp': b' ' + COOKIE32[:29] + b' \t',
+               'len33-lf': COOKIE32 + b'\n', 'len34-crlf': COOKIE32 + b'\r\n', 'len33-sp': COOKIE32 + b' ', 'len33-lead-sp': b' ' + COOKIE32}
+
+
+def nonce_of(case):
+    """the 32 bytes os.urandom gives this connection: a different value from one case to the next (a nonce kept from an
+    earlier connection of the same process shows up as the wrong AUTHCHALLENGE argument)"""
+    return CNONCE if 'nonce' not in case else hashlib.sha256(b'client nonce %d' % case['nonce']).digest()
 
 
 def hm(key, msg):
@@ -53,6 +66,7 @@ class Server:
         from twisted.internet import defer
         from txtorcon import TorControlProtocol
         self.case = case
+        self.cnonce = nonce_of(case)
         self.log = []
         self.script = list(case['script'])
         self.dead = False
@@ -104,8 +118,7 @@ class Server:
             if ck == 'ioerror':
                 os.mkdir(path)
             else:
-                n = {'len0': 0, 'len31': 31, 'len33': 33, 'len32': 32, 'len32-weirdpath': 32}[ck]
-                self.cookie_data = (COOKIE32 + b'\x99')[:n] if n <= 33 else None
+                self.cookie_data = COOKIE_DATA[ck]
                 with open(path, 'wb') as f:
                     f.write(self.cookie_data)
             self.cookie_line = ' COOKIEFILE=' + tor_escape(path)
@@ -152,13 +165,13 @@ class Server:
                 return '250 AUTHCHALLENGE\r\n'
             cookie = self.cookie_data or b''
             if resp == 'chal-good':
-                h = hm(S2C, cookie + CNONCE + SNONCE)
+                h = hm(S2C, cookie + self.cnonce + SNONCE)
             elif resp == 'chal-wrong':
-                h = bytes([hm(S2C, cookie + CNONCE + SNONCE)[0] ^ 1]) + hm(S2C, cookie + CNONCE + SNONCE)[1:]
+                h = bytes([hm(S2C, cookie + self.cnonce + SNONCE)[0] ^ 1]) + hm(S2C, cookie + self.cnonce + SNONCE)[1:]
             elif resp in VARIANTS:
-                h = VARIANTS[resp](hm(S2C, cookie + CNONCE + SNONCE))
+                h = VARIANTS[resp](hm(S2C, cookie + self.cnonce + SNONCE))
             else:
-                h = hm(S2C, b'\x00' * 32 + CNONCE + SNONCE)
+                h = hm(S2C, b'\x00' * 32 + self.cnonce + SNONCE)
             return '250 AUTHCHALLENGE SERVERHASH=%s SERVERNONCE=%s\r\n' % (h.hex().upper(), SNONCE.hex().upper())
         if w[0] == 'GETINFO':
             val = {'signal/names': 'RELOAD NEWNYM', 'version': '0.4.8.0', 'events/names': 'CIRC STREAM'}[w[1]]
@@ -200,7 +213,8 @@ VARIANTS = {'chal-prefix16': lambda h: h[:16], 'chal-prefix31': lambda h: h[:31]
 def run_impl(c):
     tmp = tempfile.mkdtemp(prefix='c04-')
     real_urandom = os.urandom
-    os.urandom = lambda n: CNONCE[:n] if n == 32 else real_urandom(n)
+    nonce = nonce_of(c)
+    os.urandom = lambda n: nonce if n == 32 else real_urandom(n)
     try:
         return Server(c, tmp).run()
     finally:
@@ -248,13 +262,17 @@ def gen_cases(rng, tier):
     if tier == 'thorough':
         for ms, ck, pw in itertools.product(mls, COOKIES, PWS):
             for sc in scripts:
-                yield {'methods': ms, 'cookie': ck, 'pw': pw, 'script': list(sc), 'wname': rng.randrange(len(WEIRD_NAMES))}
+                yield {'methods': ms, 'cookie': ck, 'pw': pw, 'script': list(sc), 'wname': rng.randrange(len(WEIRD_NAMES)), 'nonce': rng.randrange(1000)}
     else:
         for _ in range(700):
             ck = rng.choice(COOKIES) if rng.random() < 0.5 else rng.choice(['len32', 'len32-weirdpath'])
             sc = list(rng.choice(scripts)) if rng.random() < 0.6 else ['ok', rng.choice(['chal-good', 'chal-good', 'chal-wrong'] + list(VARIANTS))] + ['ok'] * 6
             yield {'methods': rng.choice(mls), 'cookie': ck, 'pw': rng.choice(PWS), 'script': sc, 'wname': rng.randrange(len(WEIRD_NAMES)),
-                   'late_disc': rng.random() < 0.5}
+                   'late_disc': rng.random() < 0.5, 'nonce': rng.randrange(1000)}
+        # every cookie-file condition under both cookie methods (deterministic)
+        for ck in COOKIES:
+            for ms in (['S'], ['C'], ['C', 'S'], ['S', 'H'], ['C', 'N']):
+                yield {'methods': ms, 'cookie': ck, 'pw': 'bytes', 'script': ['ok', 'chal-good'] + ['ok'] * 6, 'wname': 0, 'nonce': len(ck) + len(ms)}
         for ms in (['H'], ['H', 'N'], ['C', 'H'], ['S', 'H'], ['o', 'H']):
             for ck in ('nofile', 'ioerror', 'len31'):
                 for ld in (True, False):
@@ -262,7 +280,7 @@ def gen_cases(rng, tier):
 
 
 def cookie_bytes(ck):
-    return None if ck in ('nofile', 'ioerror') else (COOKIE32 + b'\x99')[:{'len0': 0, 'len31': 31, 'len33': 33}.get(ck, 32)]
+    return None if ck in ('nofile', 'ioerror') else COOKIE_DATA[ck]
 
 
 def driver_line(c):
@@ -274,8 +292,9 @@ def driver_line(c):
         ck = 'd'
     pw = {'absent': 'absent', 'empty-none': 'empty', 'empty-str': 'empty', 'raises': 'raises'}.get(c['pw'], 'v' + b'sekrit'.hex())   # (deferred-late: a value)
     cookie = cb or b''
-    s2c = hm(S2C, cookie + CNONCE + SNONCE).hex()
-    c2s = hm(C2S, cookie + CNONCE + SNONCE).hex()
+    cn = nonce_of(c)
+    s2c = hm(S2C, cookie + cn + SNONCE).hex()
+    c2s = hm(C2S, cookie + cn + SNONCE).hex()
     resps = []
     for r in c['script']:
         if r == 'chal-good':
@@ -286,10 +305,10 @@ def driver_line(c):
         elif r in VARIANTS:
             resps.append('chal:%s:%s' % (VARIANTS[r](bytes.fromhex(s2c)).hex(), SNONCE.hex()))
         elif r == 'chal-othercookie':
-            resps.append('chal:%s:%s' % (hm(S2C, b'\x00' * 32 + CNONCE + SNONCE).hex(), SNONCE.hex()))
+            resps.append('chal:%s:%s' % (hm(S2C, b'\x00' * 32 + cn + SNONCE).hex(), SNONCE.hex()))
         else:
             resps.append(r)
-    return 'run %s %s %s %s %s %s %s' % (m, ck, pw, CNONCE.hex(), s2c, c2s, ' '.join(resps))
+    return 'run %s %s %s %s %s %s %s' % (m, ck, pw, cn.hex(), s2c, c2s, ' '.join(resps))
 
 
 def run_cases(cases, drv, tier):
